@@ -634,7 +634,13 @@ where
         "reser" => {
             let b = unhex(args.first()?)?;
             Some(match deserialize_partial::<T>(&b) {
-                Ok((x, n)) => format!("OK {} {}", n, show_hex(&monero::consensus::encode::serialize(&x))),
+                Ok((x, n)) => {
+                    let ser = monero::consensus::encode::serialize(&x);
+                    if monero::consensus::encode::serialize_hex(&x) != hex::encode(&ser) {
+                        return Some("SERIALIZE-HEX-MISMATCH".into());
+                    }
+                    format!("OK {} {}", n, show_hex(&ser))
+                }
                 Err(_) => "ERR".into(),
             })
         }
@@ -649,6 +655,10 @@ where
             let w: W = parse_all(args)?;
             let mut buf = Vec::new();
             let len = unwrap(&w).consensus_encode(&mut buf).unwrap();
+            // serialize_hex is the hex text of the same bytes
+            if monero::consensus::encode::serialize_hex(unwrap(&w)) != hex::encode(&buf) {
+                return Some("SERIALIZE-HEX-MISMATCH".into());
+            }
             Some(format!("OK {} {}", show_hex(&buf), len))
         }
         "rt" => {
